@@ -50,11 +50,11 @@ for shape, s, nseg in itertools.product(((64, 64), (63, 63), (64, 80), (61, 48))
         q.fit_tilt(inplace=True)
         ok = ok and len(p.tilt) == len(keep[4])
         a.check(ok, {'shape': shape, 'scale': s, 'nseg': nseg, 'power_ratio': float(P1 / P0), 'image_err': float(np.max(np.abs(i1 - i0)) / i0.max())})
-for ps_new in (0.5e-3, 2e-3, 0.8e-3):
+for ps_new in (0.5e-3, 2e-3, 0.8e-3, 3e-3, 0.7e-3, 1e-3 / 1.23456, 1e-3):
     with a.case({'resample': ps_new}):
         p = smooth_plane((64, 64))
         q = p.resample(ps_new)
-        a.check(np.allclose(q.pixelscale, (ps_new, ps_new)) and q.amplitude.shape == tuple(int(np.ceil(64 * 1e-3 / ps_new)) for _ in range(2)), {'resample': ps_new})
+        a.check(np.allclose(q.pixelscale, (ps_new, ps_new), rtol=1e-12, atol=0) and q.amplitude.shape == tuple(int(np.ceil(64 * (1e-3 / ps_new))) for _ in range(2)), {'resample': ps_new, 'pixelscale': q.pixelscale, 'shape': q.amplitude.shape})
 
 b = Bounded('plane.Plane.rescale::every_plane_can_be_rescaled', 'planes with float / int / bool masks (1 and 2 segments) and planes that are themselves the result of a rescale; scales 0.5 1 1.5 2',
             'the operation applies to every plane: result has ceil(n s) samples, pixel scale / s, binary mask with the same segment structure')
